@@ -271,3 +271,23 @@ func TestC18NFS40RegressFaultPaths(t *testing.T) {
 		w.do(c, &opSpec{Kind: kClose, FH: a.fh, Owner: o.key, Seq: nextSeq(o.seq), Stateid: a.sid})
 	})
 }
+
+// A lock-owner with lock state on two files, only the first of which
+// still holds bytes: RELEASE_LOCKOWNER is refused with LOCKS_HELD and
+// must release nothing, in particular not the lock state of the second
+// file (whose lock state ID must stay usable for I/O afterwards).
+func TestC18NFS40RegressRefusedReleaseLockownerKeepsEverything(t *testing.T) {
+	runScripted(t, profC18, 1, func(w *world) {
+		c := w.clients[0]
+		w.register(c)
+		a := w.openConfirmed(c, 0, "a", 3)
+		b := w.openConfirmed(c, 0, "b", 3)
+		w.lockNew(c, 0, a, 0, 2, 0, 2)
+		w.lockNew(c, 0, b, 0, 2, 3, 5)
+		lo := c.lockOwner[0]
+		w.do(c, &opSpec{Kind: kLocku, FH: b.fh, LockOwner: lo.key, LockSeq: nextSeq(lo.seq), Stateid: b.locks[lo.key], LockType: 2, Offset: cut(3), Length: cut(5) - cut(3)})
+		w.do(c, &opSpec{Kind: kReleaseLockowner, LockCID: c.confirmed, LockOwner: lo.key})
+		w.do(c, &opSpec{Kind: kWrite, FH: b.fh, Stateid: b.locks[lo.key]})
+		w.do(c, &opSpec{Kind: kLockt, FH: a.fh, LockCID: c.confirmed, LockOwner: c.lockOwner[1].key, LockType: 2, Offset: 0, Length: 10})
+	})
+}
